@@ -186,19 +186,19 @@ def main(tier, seed, extra_programs=None):
             ("control", ["print", "var", "set", "if", "else", "while", "for", "break", "continue", "block", "arith"], 5 if tier == "quick" else 6, ("a",), None),
             ("exceptions", ["print", "try", "catch", "finally", "throw", "fn", "call", "return", "while", "break", "var"], 6, ("a",), None),
             ("mixed", ["print", "var", "set", "block", "if", "else", "fn", "call", "call1", "lam", "return", "while", "for", "break", "continue",
-                       "exprstmt", "arith", "try", "catch", "finally", "throw", "fiber"], 14, ("a", "b"), 6000 if tier == "quick" else 60000)]
+                       "exprstmt", "arith", "try", "catch", "finally", "throw", "fiber"], 14, ("a", "b"), 3000 if tier == "quick" else 60000)]
     for gname, vocab, budget, names, sim in gens:
         gruns, gstats = profiles.generate(profcheck.make_cfg("c04t" + gname, vocab, budget, names=names, fnnames=("f",)), simulate=sim,
                                           seed=seed + 4, module="MC_Gen", tag="c04t" + gname)
         if gstats.get("violation"):
             rep.violation("generated programs (%s): TLC reports\n%s" % (gname, gstats["violation"][:1500]), {"tlc": gstats["violation"]})
-        if tier == "quick" and len(gruns) > 6000:
+        if tier == "quick" and len(gruns) > 3000:
             random.Random(seed).shuffle(gruns)
-            gruns = gruns[:6000]
+            gruns = gruns[:3000]
         tw += [(["generated", gname, r["id"]], r["prog"]) for r in gruns]
         states += max(gstats["distinct"], len(gruns))
         trans += gstats["generated"]
-    ntw, nfw = compiletwin.check(rep, bins, tw, "program compiled by compiler.rs vs Compile.tla", tag="c04twin")
+    ntw, nfw = compiletwin.check(rep, bins[:1] if tier == "quick" else bins, tw, "program compiled by compiler.rs vs Compile.tla", tag="c04twin")
     rep.coverage["programs_compared_with_the_compiler_twin"] = ntw
     rep.coverage["functions_compared_byte_for_byte"] = nfw
     nscen += ntw
